@@ -12,7 +12,10 @@ def coq_event(ev):
         z = Fraction(ev[1])
         q = "(Qmake (%d)%%Z %d%%positive)" % (z.numerator, z.denominator)
         return "AttemptFail %s" % q
-    return {"start": "Start", "ok": "AttemptOk", "lost": "Lost", "timer": "TimerExpired", "elapse": "Elapse",
+    if n == "ok":
+        u = ev[1] if len(ev) > 1 else ()
+        return "AttemptOk [%s]" % "; ".join({"stop": "UStop", "reset": "UReset"}[x] for x in u)
+    return {"start": "Start", "lost": "Lost", "timer": "TimerExpired", "elapse": "Elapse",
             "reset": "Reset", "stop": "Stop"}[n]
 
 
@@ -41,11 +44,16 @@ def coq_triple(t):
 
 
 def run(ctx):
-    ctx.rule = ("event sequences over {start, attempt-ok, attempt-fail(z, failure type), lost, timer-expired, half-the-wait-"
-                "elapses, reset, stop} that the real object permits (a Deferred/watcher/timer can only fire if it exists; "
-                "startConnecting at most once), executed on the real Reconnector with a fake Tub, virtual clock and scripted "
-                "normalvariate: ALL such sequences up to the tier's length plus seeded long ones; distinct = distinct event "
-                "sequence; non-trivial = contains start and at least one more event")
+    ctx.rule = ("(a) atomic events {start, attempt-ok, attempt-fail(z, failure type), lost, timer-expired, half-the-wait-elapses, "
+                "reset, stop} that the real object permits (a Deferred/watcher/timer can only fire if it exists; startConnecting "
+                "at most once), each followed by draining the eventual queue: ALL sequences up to the tier's length + seeded "
+                "long ones; (b) micro-operations with the reactor turn structure explicit: attempts fire without draining, "
+                "'lose' queues the disconnect watchers like Broker does, 'turn' runs one turn of the eventual queue, "
+                "stop/reset at top level, from inside the user callback, from inside the user's disconnect handler, or queued "
+                "in the same batch ('later'): ALL sequences up to the tier's length + seeded long ones; executed on the real "
+                "Reconnector with fake Tub, virtual clocks, scripted normalvariate; the model history is the order in which "
+                "the Reconnector's entry points were really invoked; distinct = distinct sequence; non-trivial = at least "
+                "two operations, one of them start")
     ctx.assumptions = [
         "delays are exact rationals in the model, IEEE doubles in the code: compared with 1e-9 relative tolerance (+1 ns)",
         "random.normalvariate(mu, sigma) is modelled as mu + z*sigma with the draw z an input; the range theorem assumes "
@@ -53,6 +61,9 @@ def run(ctx):
         "Tub/Deferred/reactor/RemoteReference are the environment: a fake Tub in the enumeration, validated by scenarios "
         "with real Tubs on the in-memory network (modelled-not-verified: Twisted's Deferred and DelayedCall)",
         "logging, _last_failure and the informational ReconnectionInfo timestamps are not modelled (white-listed statements)",
+        "'after stopConnecting returned' is judged on the order of the actual invocations (flag set when the call returns, "
+        "checked inside the user callback, getReference, callLater and notifyOnDisconnect), after every operation and "
+        "after a final drain of the eventual queue",
     ]
     ok, log = ctx.coq_build(["props/C16.vo"])
     from harness import c16_impl as impl
@@ -64,8 +75,23 @@ def run(ctx):
 
     # ---- 0. corpus (regression witnesses), direct oracle
     corpus = []
+    corpus_micro = []
     for p in sorted(glob.glob(os.path.join(common.VERIF, "corpus", "C16", "*.json"))):
         j = json.load(open(p))
+        if "micro_operations" in j:
+            ops = [impl.micro_from_json(o) for o in j["micro_operations"]]
+            groups, viol, done = impl.run_micro(ops, cb_raises=j.get("cb_raises", False))
+            ctx.case(["corpus", os.path.basename(p)], nontrivial=True)
+            ctx.hist("source", "corpus")
+            if done != len(ops):
+                ctx.fail("corpus-not-permitted", "corpus case %s: operation %d is not enabled on the real object" % (p, done),
+                         replay=dict(file=p), has_input=False)
+            elif viol:
+                ctx.fail(viol.sig, viol.what + "  [operations: %s]" % " ".join(impl.micro_name(o) for o in ops),
+                         replay=dict(micro_operations=j["micro_operations"], corpus=os.path.basename(p)))
+            else:
+                corpus_micro.append((ops, groups))
+            continue
         evs = [impl.ev_from_json(e) for e in j["events"]]
         obs, viol, done = impl.run_sequence(evs, cb_raises=j.get("cb_raises", False))
         ctx.case(["corpus", os.path.basename(p)], nontrivial=True)
@@ -140,18 +166,76 @@ def run(ctx):
             if v3:
                 report(v3, evs, cb_raises=cbr, variant="synchronous completion")
 
+    # ---- 3b. the reactor turn structure made explicit: every operation at every point of a turn
+    #      (same turn right after an attempt's Deferred fired, between drains of the eventual queue, from inside the
+    #      user callback / the user's disconnect handler, from an event queued in the same batch)
+    micro = list(corpus_micro)
+    worst = {}
+
+    def micro_report(viol, path, cbr=False):
+        k = viol.sig
+        if k not in worst or len(path) < len(worst[k][1]):
+            worst[k] = (viol, path, cbr)
+
+    nmicro = [0]
+
+    def on_mnode(path, viol):
+        nmicro[0] += 1
+        ctx.case(["micro"] + [impl.micro_json(o) for o in path], nontrivial=len(path) >= 2)
+        ctx.hist("micro_last_op", impl.micro_name(path[-1]).split(":")[0].split("{")[0])
+        if viol:
+            micro_report(viol, path)
+    mdepth = ctx.n(6, 7)
+    mtree = impl.dfs_micro(mdepth, on_mnode)
+    ctx.extra["micro_enumeration_depth"] = mdepth
+    ctx.extra["micro_enumerated_sequences"] = nmicro[0]
+    for k in range(ctx.n(150, 1500)):
+        L = ctx.rng.randint(8, 40)
+        cbr = ctx.rng.random() < 0.3
+        drv = impl.Driver(cbr)
+        ops = []
+        try:
+            for i in range(L):
+                en = [a for a in impl.MICRO_ALL if impl.micro_enabled(drv, a)]
+                w = [(0.25 if a in (("stop",), ("later", ("stop",))) or (len(a) > 1 and "stop" in a[1]) else 1.0) for a in en]
+                a = ctx.rng.choices(en, w)[0]
+                if a == ("fail",):
+                    a = ("fail", Fraction(ctx.rng.randint(-128, 128), 16), ctx.rng.randint(0, 4))
+                elif a == ("later", ("fail",)):
+                    a = ("later", ("fail", Fraction(ctx.rng.randint(-128, 128), 16), ctx.rng.randint(0, 4)))
+                ops.append(a)
+                try:
+                    drv.micro(a)
+                except Exception:
+                    break
+        finally:
+            drv.close()
+        groups, viol, done = impl.run_micro(ops, cb_raises=cbr)
+        ctx.case(["micro"] + [impl.micro_json(o) for o in ops] + [cbr], nontrivial=True)
+        ctx.hist("source", "seeded-micro")
+        if viol:
+            shrunk = common.shrink_list(ops, lambda c: (lambda r: r[1] is not None and r[1].sig == viol.sig)(
+                impl.run_micro(c, cb_raises=cbr)))
+            g2, v2, _ = impl.run_micro(shrunk, cb_raises=cbr)
+            micro_report(v2 or viol, shrunk if v2 else ops, cbr)
+        else:
+            micro.append((ops, groups))
+    for k, (viol, path, cbr) in sorted(worst.items()):
+        ctx.fail(viol.sig, viol.what + "  [operations: %s]" % " ".join(impl.micro_name(o) for o in path),
+                 replay=dict(micro_operations=[impl.micro_json(o) for o in path], cb_raises=cbr))
+
     # ---- 4. correspondence with the Coq model
     model_ok = ok
     if not ok:
         model_ok, _ = ctx.coq_build(["lib/Reconnector.vo"])
     if model_ok:
-        correspond(ctx, depth, nodes, corpus + longs)
+        correspond(ctx, depth, nodes, corpus + longs, micro, mtree)
     if not ok and len(ctx.failures) == before:
         ctx.fail("proof-broken", "theorem closure props/C16.vo no longer builds against the regenerated gen/ReconnectorGen.v:\n"
                  + log[-2500:], replay=dict(log=log[-6000:]), has_input=False)
 
 
-def correspond(ctx, depth, nodes, seqs):
+def correspond(ctx, depth, nodes, seqs, micro=(), mtree=()):
     """the comparison runs inside Coq (Reconnector.first_mismatch): the expected observations are written into the
     case file, the model is evaluated with vm_compute, and only the index of the first disagreement comes back"""
     from harness import c16_impl as impl
@@ -163,6 +247,23 @@ def correspond(ctx, depth, nodes, seqs):
                  % common.coq_list(["(%s, %s)" % (common.coq_list([coq_event(e) for e in evs]),
                                                   common.coq_list([coq_triple(pack(o)) for o in obs]))
                                     for evs, obs in ch]))
+    mchunks = [micro[i:i + 300] for i in range(0, len(micro), 300)]
+    for ch in mchunks:
+        body += ("Eval vm_compute in map (group_mismatch 0%%Z init_state) %s.\n"
+                 % common.coq_list([common.coq_list(["(%s, %s)" % (common.coq_list([coq_event(e) for e in evs]),
+                                                                    coq_triple(pack(o))) for evs, o in groups])
+                                    for _, groups in ch]))
+    # the exhaustive turn-structure enumeration, as trees with shared prefixes (one per first operation)
+    preorder = []
+
+    def gnode(n):
+        preorder.append(n)
+        return "GNode %s %s %s" % (common.coq_list([coq_event(e) for e in n["evs"]]), coq_triple(pack(n["obs"])),
+                                   common.coq_list([gnode(k) for k in n["kids"]]))
+    starts = []
+    for root in mtree:
+        starts.append(len(preorder))
+        body += "Eval vm_compute in tree_mismatch (%s) init_state %d%%Z.\n" % (gnode(root), starts[-1])
     try:
         vals = ctx.coq_eval("C16_cases", body, requires=REQ, timeout=1500)
     except common.CoqEvalError as e:
@@ -184,7 +285,30 @@ def correspond(ctx, depth, nodes, seqs):
         else:
             ctx.fail("correspondence/enumeration", "the model permits more sequences of length <= %d than the implementation "
                      "(%d); first extra model observation %r" % (depth, len(nodes), m), has_input=False)
-    flat = [t for v in vals[1:] for t in v]
+    mflat = [t for v in vals[1 + len(chunks):1 + len(chunks) + len(mchunks)] for t in v]
+    for (ops, groups), (k, m) in zip(micro, mflat):
+        if k == -1:
+            ctx.traces += 1
+            continue
+        nbad += 1
+        g = groups[k] if k < len(groups) else None
+        ctx.fail("correspondence/turn-structure", "model and implementation disagree at operation %d of [%s] (the last one is "
+                 "the final drain): the Reconnector's entry points were invoked as %r; model %r, implementation %r"
+                 % (k, " ".join(impl.micro_name(o) for o in ops), g and g[0], m, g and pack(g[1])),
+                 replay=dict(micro_operations=[impl.micro_json(o) for o in ops], at=k), has_input=False)
+    for st0, (nxt, bad) in zip(starts, vals[1 + len(chunks) + len(mchunks):]):
+        if bad == "None":
+            continue
+        k, m = bad[1] if isinstance(bad, tuple) and bad[0] == "Some" else (None, None)
+        nbad += 1
+        n = preorder[k] if k is not None and k < len(preorder) else None
+        ctx.fail("correspondence/turn-structure", "model and implementation disagree after the operations [%s]: the last one "
+                 "made the Reconnector's entry points run as %r; model %r, implementation %r"
+                 % (n and " ".join(impl.micro_name(o) for o in n["path"]), n and n["evs"], m, n and pack(n["obs"])),
+                 replay=dict(micro_operations=n and [impl.micro_json(o) for o in n["path"]]), has_input=False)
+    if not nbad:
+        ctx.traces += len(preorder)
+    flat = [t for v in vals[1:1 + len(chunks)] for t in v]
     for (evs, obs), (k, m) in zip(seqs, flat):
         if k == -1:
             ctx.traces += 1
@@ -193,5 +317,5 @@ def correspond(ctx, depth, nodes, seqs):
         ctx.fail("correspondence/trace", "model and implementation disagree at event %d of [%s]: model %r, implementation %r"
                  % (k, " ".join(e[0] for e in evs[:k + 1]), m, pack(obs[k]) if k < len(obs) else None),
                  replay=dict(events=[impl.ev_json(e) for e in evs], at=k), has_input=False)
-    ctx.extra["correspondence_cases"] = len(nodes) + len(seqs)
+    ctx.extra["correspondence_cases"] = len(nodes) + len(seqs) + len(micro) + len(preorder)
     ctx.extra["correspondence_disagreements"] = nbad
